@@ -13,8 +13,11 @@ the same n. This holds under NOR and HNO always and under APP and HAP wherever t
 does not exclude them (the Z-based Scott operations are documented as unsuitable for both)."
 
 Same three layers as C13 (see LC/Props/C13.lean): `Computes t n` for ALL arguments (convergence by
-induction, termination of NOR/HNO via C07, result of any normalising order via C06), plus the
-bounded layer 3 for the eager orders on the operations the documentation does not exclude.
+induction, termination of NOR/HNO via C07, result of any normalising order via C06), and — **unbounded
+too** — `reduce HAP 0` and `reduce APP 0` RETURN the expected encoding for all arguments on every operation
+the documentation does not exclude (`C14_*_hap`, `C14_*_app`; big-step eager semantics, one derivation per
+operation).  The excluded Z-based Scott operations are shown to DIVERGE under both eager orders
+(`C14_scott_z_based_diverge_*`), confirming the documentation.  A small kernel grid is kept as a cross-check.
 Binary: bits are Booleans with B0 ≡ TRUE, B1 ≡ FALSE and `lsb` returns the bit; `pred` and `shl0`
 may produce a leading zero and are compared after `strip`, as documented; `strip` itself is
 specified on ALL bit strings with leading zeroes (`binaryBits`).
@@ -23,6 +26,9 @@ import LC.Proofs.Layer2
 import LC.Proofs.Grid
 import LC.Proofs.Num.ScottParigot
 import LC.Proofs.Num.StumpFuBinary
+import LC.Proofs.Eager.ScottParigot
+import LC.Proofs.Eager.StumpFu
+import LC.Proofs.Eager.Binary
 import LC.Props.C12
 import LC.Props.C13
 
@@ -99,18 +105,63 @@ theorem C14_binary_strip (bs : List Bool) :
 example : ∃ fuel c, reduce .HNO 0 fuel (app2 Gen.Parigot.sub (intoParigot 5) (intoParigot 2))
     = some (intoParigot 3, c) := (C14_parigot_sub 5 2).hno
 
-/-! ### layer 3 (BOUNDED): the eager orders terminate on the grid, wherever the documentation does not
-exclude them (excluded: Scott add, mul, pow, to_church). -/
+/-! ### layer 3, unbounded: HAP and APP return the expected encoding for all arguments -/
+''')
+def eager_thm(e, op, ar, res, order):
+    mod, into, _ = ENC[e]
+    O = {"hap": ".HAP", "app": ".APP"}[order]
+    thm = f"{e}_{op}_{order}"
+    if ar == 1:
+        return (f"theorem C14_{e}_{op}_{order} (n : Nat) :\n    ∃ fuel c, reduce {O} 0 fuel (app Gen.{mod}.{op} ({into} n)) = some ({res}, c) := by\n"
+                f"  have h := ({thm} n).reduce\n  first | exact h | simpa using h\n")
+    return (f"theorem C14_{e}_{op}_{order} (m n : Nat) :\n    ∃ fuel c, reduce {O} 0 fuel (app2 Gen.{mod}.{op} ({into} m) ({into} n)) = some ({res}, c) := by\n"
+            f"  have h := ({thm} m n).reduce\n  first | exact h | simpa using h\n")
+for e, op, ar, res, kind, thm, eager in OPS:
+    if eager == "none":
+        continue
+    out.append(eager_thm(e, op, ar, res, "hap"))
+    out.append(eager_thm(e, op, ar, res, "app"))
+BIN_E = [("is_zero", "app Gen.Binary.is_zero (intoBinary n)", "fromBool (n == 0)"),
+         ("lsb", "app Gen.Binary.lsb (intoBinary n)", "if n % 2 = 1 then Gen.Binary.b1 else Gen.Binary.b0"),
+         ("succ", "app Gen.Binary.succ (intoBinary n)", "intoBinary (n + 1)"),
+         ("shl1", "app Gen.Binary.shl1 (intoBinary n)", "intoBinary (2 * n + 1)"),
+         ("shl0", "app Gen.Binary.strip (app Gen.Binary.shl0 (intoBinary n))", "intoBinary (2 * n)"),
+         ("pred", "app Gen.Binary.strip (app Gen.Binary.pred (intoBinary n))", "intoBinary (n - 1)")]
+for op, lhs, res in BIN_E:
+    for order, O in (("hap", ".HAP"), ("app", ".APP")):
+        out.append(f"theorem C14_binary_{op}_{order} (n : Nat) :\n    ∃ fuel c, reduce {O} 0 fuel ({lhs}) = some ({res}, c) := by\n"
+                   f"  have h := (binary_{op}_{order} n).reduce\n  first | exact h | simpa using h\n")
+for order, O in (("hap", ".HAP"), ("app", ".APP")):
+    out.append(f"theorem C14_binary_strip_{order} (bs : List Bool) :\n    ∃ fuel c, reduce {O} 0 fuel (app Gen.Binary.strip (binaryBits bs)) = some (intoBinary (valueOf bs), c) := by\n"
+               f"  have h := (binary_strip_{order} bs).reduce\n  first | exact h | simpa using h\n")
+out.append('''/-- the Z-based Scott operations do not terminate under HAP on numerals, for any fuel (the documentation says
+they overflow the stack under the applicative family) -/
+theorem C14_scott_z_based_diverge_hap (m n fuel : Nat) :
+    reduce .HAP 0 fuel (app2 Gen.Scott.add (intoScott m) (intoScott n)) = none ∧
+    reduce .HAP 0 fuel (app2 Gen.Scott.mul (intoScott m) (intoScott n)) = none ∧
+    reduce .HAP 0 fuel (app2 Gen.Scott.pow (intoScott m) (intoScott n)) = none ∧
+    reduce .HAP 0 fuel (app Gen.Scott.to_church (intoScott n)) = none :=
+  ⟨scott_add_diverges_hap m n fuel, scott_mul_diverges_hap m n fuel, scott_pow_diverges_hap m n fuel,
+   scott_to_church_diverges_hap n fuel⟩
+
+/-- … and under APP for ANY argument terms (the combinator Z itself has no APP-normal form) -/
+theorem C14_scott_z_based_diverge_app (a b : Term) (fuel : Nat) :
+    reduce .APP 0 fuel (app2 Gen.Scott.add a b) = none ∧ reduce .APP 0 fuel (app2 Gen.Scott.mul a b) = none ∧
+    reduce .APP 0 fuel (app2 Gen.Scott.pow a b) = none ∧ reduce .APP 0 fuel (app Gen.Scott.to_church a) = none :=
+  ⟨scott_add_diverges_app a b fuel, scott_mul_diverges_app a b fuel, scott_pow_diverges_app a b fuel,
+   scott_to_church_diverges_app a fuel⟩
+
+/-! ### cross-check grid (BOUNDED; carries no claim any more) -/
 ''')
 for e, op, ar, res, kind, thm, eager in OPS:
     if eager == "none":
         continue
     mod, into, _ = ENC[e]
     if ar == 1:
-        out.append(f"set_option maxRecDepth 100000 in\ntheorem C14_grid_{e}_{op} : (List.range 6).all (fun n => (eager false).all (fun o =>\n"
+        out.append(f"set_option maxRecDepth 100000 in\ntheorem C14_grid_{e}_{op} : (List.range 4).all (fun n => (eager false).all (fun o =>\n"
                    f"    Grid.runsTo o FUEL (app Gen.{mod}.{op} ({into} n)) ({res}))) = true := by decide +kernel\n")
     else:
-        g = 2 if op == "mul" else 3
+        g = 2
         out.append(f"set_option maxRecDepth 100000 in\ntheorem C14_grid_{e}_{op} : (Grid.range2 {g} {g}).all (fun (m, n) => (eager false).all (fun o =>\n"
                    f"    Grid.runsTo o FUEL (app2 Gen.{mod}.{op} ({into} m) ({into} n)) ({res}))) = true := by decide +kernel\n")
 BINOPS = [("is_zero", "app Gen.Binary.is_zero (intoBinary n)", "fromBool (n == 0)"),
@@ -121,7 +172,7 @@ BINOPS = [("is_zero", "app Gen.Binary.is_zero (intoBinary n)", "fromBool (n == 0
           ("pred", "app Gen.Binary.strip (app Gen.Binary.pred (intoBinary n))", "intoBinary (n - 1)"),
           ("strip", "app Gen.Binary.strip (intoBinary n)", "intoBinary n")]
 for op, lhs, res in BINOPS:
-    out.append(f"set_option maxRecDepth 100000 in\ntheorem C14_grid_binary_{op} : (List.range 20).all (fun n => (eager false).all (fun o =>\n"
+    out.append(f"set_option maxRecDepth 100000 in\ntheorem C14_grid_binary_{op} : (List.range 9).all (fun n => (eager false).all (fun o =>\n"
                f"    Grid.runsTo o FUEL ({lhs}) ({res}))) = true := by decide +kernel\n")
 out.append("end LC\n")
 open("/verif/lean/LC/Props/C14.lean", "w").write("\n".join(out))
